@@ -119,7 +119,7 @@ class FitterInit(Contract):
     filter (flux ~ d^-2 in log space); settings stored as given."""
     name = FITTER + '.__init__'
     properties = ('C01', 'C10')
-    variants = ('two_filters',)
+    variants = ('two_filters', 'two_filters/arcmin')        # (apertures given in arcsec / in arcmin)
     modifies = ('self',)
     assume_pre_of = ('sedfitter.extinction.extinction.Extinction.get_av',)
 
@@ -133,7 +133,7 @@ class FitterInit(Contract):
         self.ap = c.array('apertures', (2,))
         law = make_extinction(c, U['micron'], CHI_CGS)
         self.dr = Quantity(c.array('distance_range', (2,)), U['kpc'])
-        return dict(self=c.obj(FITTER), filter_names=c.list(['F0', 'F1']), apertures=Quantity(self.ap, U['arcsec']), model_dir='models_dir',
+        return dict(self=c.obj(FITTER), filter_names=c.list(['F0', 'F1']), apertures=Quantity(self.ap, units.BASE['arcmin' if str(variant).endswith('/arcmin') else 'arcsec']), model_dir='models_dir',
                     extinction_law=law, av_range=(c.real('av_lo'), c.real('av_hi')), distance_range=self.dr, remove_resolved=False, use_memmap=False)
 
     def raises(self, c, a):
@@ -166,7 +166,7 @@ class FitterInit(Contract):
         WL = c.A(wl)
         for i, d in enumerate(items):
             di = c.st.heap[d.addr].items
-            out['filter_%d_name_aperture_wavelength' % i] = [di.get('name') == 'F%d' % i, compare('==', di.get('aperture_arcsec'), AP[i]),
+            out['filter_%d_name_aperture_wavelength' % i] = [di.get('name') == 'F%d' % i, compare('==', di.get('aperture_arcsec'), AP[i] * (a.apertures.unit.scale / __import__('sedvc.units', fromlist=['BASE']).BASE['arcsec'].scale)),
                                                            isinstance(di.get('wav'), Quantity) and compare('==', di['wav'].value * di['wav'].unit.scale, WL[i] * wl.unit.scale)]
         out['models_read_once_with_the_given_arguments'] = (len(reads) == 1 and reads[0][2].get('directory') == 'models_dir' and getattr(reads[0][2].get('filters'), 'addr', 0) == fl.addr
                                                             and reads[0][2].get('distance_range') is a.distance_range and reads[0][2].get('remove_resolved') is False
